@@ -26,9 +26,18 @@ var pureIntrinsics map[string]bool
 
 func init() {
 	intrinsics = map[string]intrinsicFn{
-		"fmt.Errorf":  inErrorf,
-		"fmt.Sprintf": inSprintf,
-		"errors.New":  inErrorf,
+		"fmt.Errorf":       inErrorf,
+		"fmt.Sprintf":      inSprintf,
+		"errors.New":       inErrorf,
+		"sort.Slice":       inSortSlice,
+		"sort.SliceStable": inSortSlice,
+		"sort.Ints": func(ex *Exec, _ *ssa.Function, a []Value, _ ssa.Instruction) Value {
+			s := a[0].(SliceV)
+			ex.sortCells(s, func(i, j int) bool {
+				return ex.concInt(ex.load(s.b.cells[s.off+i]), "sort.Ints") < ex.concInt(ex.load(s.b.cells[s.off+j]), "sort.Ints")
+			})
+			return nil
+		},
 		"fmt.Sprint": func(ex *Exec, _ *ssa.Function, a []Value, _ ssa.Instruction) Value {
 			return fmt.Sprint(ex.hostArgs(a[0])...)
 		},
@@ -197,6 +206,40 @@ func (ex *Exec) hostArgs(v Value) []interface{} {
 		out[k] = ex.hostValue(ex.load(s.b.cells[s.off+k]), 0)
 	}
 	return out
+}
+
+// sortCells: stable insertion sort of a slice's elements driven by less(i, j) on current positions.
+func (ex *Exec) sortCells(s SliceV, less func(i, j int) bool) {
+	for i := 1; i < s.n; i++ {
+		for j := i; j > 0 && less(j, j-1); j-- {
+			a, b := s.b.cells[s.off+j], s.b.cells[s.off+j-1]
+			va, vb := ex.load(a), ex.load(b)
+			ex.store(a, vb, "sort")
+			ex.store(b, va, "sort")
+		}
+	}
+}
+
+func inSortSlice(ex *Exec, _ *ssa.Function, a []Value, site ssa.Instruction) Value {
+	ifc, ok := a[0].(Iface)
+	if !ok {
+		return nil
+	}
+	s, ok := ifc.v.(SliceV)
+	if !ok {
+		panic(&GoPanic{Kind: "unsupported", Msg: "sort.Slice on a non-slice"})
+	}
+	ex.sortCells(s, func(i, j int) bool {
+		r := ex.normInt(ex.callValue(a[1], []Value{int64(i), int64(j)}, site))
+		switch b := r.(type) {
+		case bool:
+			return b
+		case *Term:
+			return ex.branch(b, "sort less")
+		}
+		return false
+	})
+	return nil
 }
 
 func inErrorf(ex *Exec, _ *ssa.Function, args []Value, _ ssa.Instruction) Value {
@@ -1028,6 +1071,9 @@ var vrtIntrinsics = map[string]intrinsicFn{
 	},
 	"Concurrently": func(ex *Exec, _ *ssa.Function, a []Value, _ ssa.Instruction) Value {
 		return nil
+	},
+	"Steps": func(ex *Exec, _ *ssa.Function, a []Value, _ ssa.Instruction) Value {
+		return ex.steps
 	},
 	"Concretize": func(ex *Exec, _ *ssa.Function, a []Value, _ ssa.Instruction) Value {
 		return ex.concInt(a[0], "Concretize")
